@@ -9,6 +9,7 @@ TOOL = mon.PROFILER_ID
 EVENTS = mon.events.PY_START | mon.events.JUMP | mon.events.BRANCH
 
 DEFAULT_BUDGET = 3_000_000
+MAX_BUDGET = 200_000_000
 
 
 class BudgetExceeded(BaseException):
